@@ -1,17 +1,254 @@
-//! C19 — engine not implemented yet.
+//! C19 — web IDE file API stays inside the project and never loses a concurrent edit.
+//! Part 1 (confinement, X1) lives in `c19_confine.rs`; this file adds part 2 (concurrent
+//! writers, X3): every interleaving of k editor sessions doing open → apply(expected version)
+//! (with one retry after a conflict) on the same file of a real `WebIdeState`.
 
+use super::c19_confine;
 use crate::fw::*;
-use crate::iso::WorkerFn;
-use serde_json::Value;
+use crate::iso::{self, PoolCfg, WorkerFn};
+use crate::x3;
+use serde_json::{json, Value};
+use std::sync::atomic::{AtomicU64, Ordering};
+use std::time::{Duration, Instant};
+use trust_runtime::verif_sync;
+use trust_runtime::web::ide::{IdeRole, WebIdeState};
 
-pub fn run(_ctx: &Ctx) -> EngineResult {
-    machinery("engine C19 not implemented")
+const HORIZON: u64 = 4000;
+static COUNTER: AtomicU64 = AtomicU64::new(0);
+
+pub fn worker_exec(case: &Value) -> Value {
+    let writers = case["writers"].as_u64().unwrap_or(2) as usize;
+    let retries = case["retries"].as_u64().unwrap_or(1) as usize;
+    let work = case["work"].as_str().unwrap_or("/verif/.work").to_string();
+    x3::run_controlled(case, HORIZON, move |_sched| scenario(&work, writers, retries))
 }
 
-pub fn check_case(_case: &Value) -> Vec<Violation> {
-    Vec::new()
+fn scenario(work: &str, writers: usize, retries: usize) -> Value {
+    let dir = std::path::PathBuf::from(work).join(format!(
+        "w{}-{}",
+        std::process::id(),
+        COUNTER.fetch_add(1, Ordering::Relaxed)
+    ));
+    let _ = std::fs::remove_dir_all(&dir);
+    std::fs::create_dir_all(&dir).expect("create scratch project");
+    let file = dir.join("main.st");
+    std::fs::write(&file, "v0").expect("write initial file");
+    let ide = std::sync::Arc::new(WebIdeState::new(Some(dir.clone())));
+    let tokens: Vec<String> = (0..writers)
+        .map(|_| ide.create_session(IdeRole::Editor).expect("editor session").token)
+        .collect();
+    let mut handles = Vec::new();
+    for (i, token) in tokens.into_iter().enumerate() {
+        let ide = ide.clone();
+        handles.push(verif_sync::thread::spawn(move || {
+            // each attempt: open (see content + version), then write content derived from it
+            let mut log = Vec::new();
+            for attempt in 0..=retries {
+                let snap = match ide.open_source(&token, "main.st") {
+                    Ok(s) => s,
+                    Err(e) => {
+                        log.push(json!({"open_error": e.to_string()}));
+                        break;
+                    }
+                };
+                let new_content = format!("{}+w{}a{}", snap.content, i, attempt);
+                match ide.apply_source(&token, "main.st", snap.version, new_content.clone(), true) {
+                    Ok(r) => {
+                        log.push(json!({"based_on": snap.content, "seen_version": snap.version, "wrote": new_content, "ok_version": r.version}));
+                        break;
+                    }
+                    Err(e) => {
+                        log.push(json!({"based_on": snap.content, "seen_version": snap.version, "wrote": new_content,
+                                        "conflict": e.current_version(), "error": e.to_string()}));
+                    }
+                }
+            }
+            log
+        }));
+    }
+    let logs: Vec<Value> = handles
+        .into_iter()
+        .map(|h| json!(h.join().expect("writer thread panicked")))
+        .collect();
+    let disk = std::fs::read_to_string(&file).unwrap_or_else(|e| format!("<unreadable: {e}>"));
+    let _ = std::fs::remove_dir_all(&dir);
+    json!({"logs": logs, "disk": disk})
+}
+
+fn judge(rec: &Value) -> Vec<Violation> {
+    let obs = &rec["obs"];
+    let mut out = Vec::new();
+    let mut v = |clause: &str, what: String| {
+        out.push(Violation {
+            signature: format!("C19/{clause}/apply_source:concurrent-writers"),
+            what,
+            case: json!({"clause": clause}),
+        });
+    };
+    // collect successful writes ordered by the version they produced (= lock order)
+    let mut succ: Vec<(u64, String, String)> = Vec::new();
+    let mut errors = Vec::new();
+    for log in obs["logs"].as_array().cloned().unwrap_or_default() {
+        for e in log.as_array().cloned().unwrap_or_default() {
+            if let Some(ver) = e["ok_version"].as_u64() {
+                succ.push((ver, e["based_on"].as_str().unwrap_or("").to_string(), e["wrote"].as_str().unwrap_or("").to_string()));
+            } else if e.get("open_error").is_some() || (e.get("error").is_some() && e["conflict"].is_null()) {
+                errors.push(e.clone());
+            }
+        }
+    }
+    if !errors.is_empty() {
+        v("writer-error", format!("a writer failed with a non-conflict error: {}", errors[0]));
+    }
+    succ.sort();
+    let mut prev = "v0".to_string();
+    let mut last_version = 0u64;
+    for (ver, based_on, wrote) in &succ {
+        if *ver == last_version {
+            v("version-chain", format!("two successful writes produced the same version {ver}"));
+        }
+        last_version = *ver;
+        if *based_on != prev {
+            v(
+                "lost-update",
+                format!("write producing version {ver} succeeded although it was based on {based_on:?} while the latest content was {prev:?} (silently overwrites a successful write)"),
+            );
+        }
+        prev = wrote.clone();
+    }
+    let disk = obs["disk"].as_str().unwrap_or("");
+    if disk != prev {
+        v("disk-content", format!("file content {disk:?} differs from the content of the last successful write {prev:?}"));
+    }
+    out
+}
+
+fn pool(threads: usize, deadline: Option<Instant>) -> PoolCfg {
+    PoolCfg {
+        worker: "c19_exec",
+        procs: threads,
+        rlimit_as: 0,
+        per_case: Duration::from_secs(60),
+        deadline,
+        env: vec![],
+        stack: 8 << 20,
+    }
+}
+
+pub fn run(ctx: &Ctx) -> EngineResult {
+    quiet_panics();
+    let mut rep = Report::new("exploration");
+    // part 1: confinement
+    c19_confine::run_part(ctx, &mut rep)?;
+    // part 2: writers
+    let work = ctx.work_dir();
+    let scns: Vec<(usize, usize, usize)> = ctx.tier.pick(
+        vec![(2, 1, 3), (3, 1, 2)],
+        vec![(2, 1, 6), (3, 1, 3), (2, 2, 4), (3, 2, 2)],
+    );
+    let budget = ctx.tier.pick(18.0, 400.0) / scns.len() as f64;
+    let mut schedules = 0u64;
+    let mut outcomes = 0u64;
+    let mut conflicts_seen = false;
+    let mut writer_reports = Vec::new();
+    for (writers, retries, bound) in scns {
+        let deadline = Instant::now() + Duration::from_secs_f64(budget);
+        let cfg = pool(ctx.threads, Some(deadline));
+        let scenario = json!({"part": "writers", "writers": writers, "retries": retries, "work": work.display().to_string()});
+        let stats = x3::explore(
+            &cfg,
+            &scenario,
+            bound,
+            Some(deadline),
+            &judge,
+            &|rec| {
+                let o = &rec["obs"];
+                let n_conf: usize = o["logs"]
+                    .as_array()
+                    .map(|a| a.iter().map(|l| l.as_array().map(|e| e.iter().filter(|x| x.get("error").is_some()).count()).unwrap_or(0)).sum())
+                    .unwrap_or(0);
+                format!("disk={} conflicts={}", o["disk"], n_conf)
+            },
+            &|rec, _| {
+                if rec["abort"]["kind"] == "deadlock" {
+                    vec![Violation {
+                        signature: "C19/deadlock/apply_source:concurrent-writers".into(),
+                        what: format!("writers dead-locked: {}", rec["abort"]["detail"]),
+                        case: json!({"clause": "deadlock"}),
+                    }]
+                } else {
+                    Vec::new()
+                }
+            },
+        )
+        .map_err(Machinery)?;
+        let cfg1 = pool(1, None);
+        for v in &stats.violations {
+            let sc = &v.case["scenario"];
+            let r1 = x3::exec_once(&cfg1, sc).map_err(Machinery)?;
+            let r2 = x3::exec_once(&cfg1, sc).map_err(Machinery)?;
+            if r1["trace_hash"] != r2["trace_hash"] || r1["obs"] != r2["obs"] {
+                return machinery(format!("schedule replay is not deterministic for {}", v.signature));
+            }
+            rep.violation(v.clone());
+        }
+        if stats.outcomes.keys().any(|k| !k.ends_with("conflicts=0")) {
+            conflicts_seen = true;
+        }
+        schedules += stats.schedules;
+        outcomes += stats.outcomes.len() as u64;
+        if stats.capped {
+            rep.cap(format!("writers {writers}x(1+{retries}): wall cap; deviation bound completed {:?} of {bound}", stats.completed_bound));
+            rep.set("exhaustive", false);
+        }
+        if let Some(s) = stats.samples.first() {
+            rep.sample(json!({"part": "writers", "writers": writers, "execution": s}));
+        }
+        writer_reports.push(json!({
+            "writers": writers, "retries": retries, "deviation_bound": bound, "completed_bound": stats.completed_bound,
+            "schedules": stats.schedules, "schedules_per_bound": stats.per_bound, "distinct_outcomes": stats.outcomes.len(),
+            "max_decisions_per_execution": stats.max_decisions, "deadlocks": stats.deadlocks, "horizon_hits": stats.horizon_hits,
+        }));
+        eprintln!("[C19] writers {writers}: {} schedules {:?}, {} outcomes, {:.1}s", stats.schedules, stats.per_bound, stats.outcomes.len(), ctx.elapsed());
+    }
+    if schedules < 10 || outcomes < 2 || !conflicts_seen {
+        return machinery(format!("vacuous writer exploration: {schedules} schedules, {outcomes} outcomes, conflicts seen: {conflicts_seen}"));
+    }
+    rep.set("writer_schedules", schedules);
+    rep.set("writer_scenarios", writer_reports);
+    // combined exploration-style counters
+    let ev = rep.get("confine_evaluations") + schedules;
+    let dn = rep.get("confine_distinct_nontrivial") + outcomes;
+    rep.set("evaluations", ev);
+    rep.set("distinct_nontrivial", dn);
+    let confine_rule = rep.coverage.get("confine_rule").and_then(Value::as_str).unwrap_or("").to_string();
+    rep.set(
+        "rule",
+        format!(
+            "part 1 (confinement): {confine_rule} | part 2 (writers): every schedule (Mutex operations of the IDE state lock + the un-locked disk read and the locked disk write as scheduling points, deviation-bounded) of k editor sessions each doing open -> apply(expected = seen version) with retries on the same file; non-trivial = distinct (final file content, number of conflicts) outcomes"
+        ),
+    );
+    if !rep.coverage.contains_key("exhaustive") {
+        rep.set("exhaustive", true);
+    }
+    rep.assume("writers: sequentially consistent interleavings at the hooked points; deviation-bounded; sessions created before the race");
+    Ok(rep)
+}
+
+pub fn check_case(case: &Value) -> Vec<Violation> {
+    if case["part"] == "confine" {
+        return c19_confine::check_case(case);
+    }
+    let sc = &case["scenario"];
+    let cfg = pool(1, None);
+    let Ok(rec) = x3::exec_once(&cfg, sc) else { return Vec::new() };
+    if rec["abort"].is_null() {
+        judge(&rec)
+    } else {
+        Vec::new()
+    }
 }
 
 pub fn workers() -> Vec<(&'static str, WorkerFn)> {
-    Vec::new()
+    vec![("c19_exec", worker_exec as iso::WorkerFn)]
 }
